@@ -54,6 +54,7 @@ class FnTarget:
         self.head = None
         self.loops = {}
         self.loop_iters = {}   # loop ordinal -> name of the Verus ghost iterator (`for p in NAME: e`)
+        self.loop_parts = {}   # ('head'|'tail'|'before', loop key) -> ghost text put after the '{' / before the '}' of the loop body / before the loop statement
         self.hints = []
         self.optional = set()  # ('loop', key) / ('iter', key) / ('hint', text): spliced if the anchor exists, skipped otherwise
         self.tail = None       # proof text put before the closing brace of the body (unit-returning fns only)
@@ -211,6 +212,8 @@ class Assembler:
                         tgt.head = text
                     elif kind == 'loop':
                         tgt.loops[cur_field[1]] = text
+                    elif kind == 'loop-part':
+                        tgt.loop_parts[(cur_field[1], cur_field[2])] = text
                     elif kind == 'tail':
                         tgt.tail = text
                     elif kind == 'closure':
@@ -258,6 +261,12 @@ class Assembler:
                             cur_field = ('head-all',)
                         elif d == 'prefix':
                             cur_field = ('prefix',)
+                        elif re.match(r'loop-(head|tail|before|after)\s', d):
+                            # ghost text addressed by LOOP (ordinal or /header text/), not by statement text: put right after
+                            # the '{' of the loop body (head), right before its '}' (tail), or before the loop statement
+                            # (before) or after its closing '}' (after).  Survives renamings and statement edits inside the loop that a `hint` anchor does not.
+                            mo_ = re.match(r'loop-(head|tail|before|after)\s+(.*)$', d)
+                            cur_field = ('loop-part', mo_.group(1), _loop_key(mo_.group(2).strip()))
                         elif d.startswith('loop? ') or d.startswith('loop '):
                             # optional variants (`loop?`, `iter?`, `hint?`): the splice is skipped, not an anchor
                             # loss, when the loop/statement does not exist -- lets one unit assemble against two
@@ -569,6 +578,20 @@ class Assembler:
                     if lkey is not None:
                         edits.append((st[j].start, st[j].start, '\n' + tgt.loops[lkey] + '\n'))
                         seen_loops.add(lkey)
+                    if tgt and tgt.loop_parts:
+                        jc = match_close(st, j)
+                        for (part_, pkey_), ptext_ in tgt.loop_parts.items():
+                            if not (pkey_ == loop_no or (isinstance(pkey_, str) and pkey_ in header)):
+                                continue
+                            seen_loops.add(('part', part_, pkey_))
+                            if part_ == 'head':
+                                edits.append((st[j].end, st[j].end, '\n' + ptext_ + '\n'))
+                            elif part_ == 'tail':
+                                edits.append((st[jc].start, st[jc].start, '\n' + ptext_ + '\n'))
+                            elif part_ == 'after':
+                                edits.append((st[jc].end, st[jc].end, '\n' + ptext_ + '\n'))
+                            else:
+                                edits.append((t.start, t.start, '\n' + ptext_ + '\n'))
                     if canary and (tgt is None or tgt.canary):
                         edits.append((st[j].end, st[j].end, '\nproof { assert(false); } // RBVERIF_CANARY\n'))
                         self.canaries += 1
@@ -743,6 +766,9 @@ class Assembler:
                 for n in tgt.loops:
                     if n not in seen_loops and ('loop', n) not in tgt.optional:
                         raise AnchorLost('fn %s has no loop #%s (found %d) in %s' % (tgt.name, n, loop_no, blk.relpath))
+                for (part_, pkey_) in tgt.loop_parts:
+                    if ('part', part_, pkey_) not in seen_loops:
+                        raise AnchorLost('fn %s has no loop #%s (found %d) for loop-%s in %s' % (tgt.name, pkey_, loop_no, part_, blk.relpath))
                 lo, hi = st[a].end, st[b].start
                 for stmt, htext, after in tgt.hints:
                     body = text[lo:hi]
